@@ -758,6 +758,23 @@ func (env *SpecEnv) evalCall(c *ast.CallExpr) TV {
 				tool("spec: as(x, T)")
 			}
 			return TV{ex.unbox(env.st, iv, t), t}
+		case "pow2":
+			k := env.eval(c.Args[0]).V.(Scalar).T
+			if k.IsInt() && k.Int.IsInt64() && k.Int.Int64() >= 0 && k.Int.Int64() < 128 {
+				return TV{Scalar{BigLit(pow2(uint(k.Int.Int64())))}, nil}
+			}
+			res := Zero
+			for i := 63; i >= 0; i-- {
+				res = Ite(Eq(k, IntLit(int64(i))), BigLit(pow2(uint(i))), res)
+			}
+			return TV{Scalar{res}, nil}
+		case "min", "max":
+			a := env.eval(c.Args[0]).V.(Scalar).T
+			b := env.eval(c.Args[1]).V.(Scalar).T
+			if id.Name == "min" {
+				return TV{Scalar{Ite(Lt(b, a), b, a)}, nil}
+			}
+			return TV{Scalar{Ite(Lt(a, b), b, a)}, nil}
 		case "ufStr", "ufInt", "ufBool":
 			lit, ok := c.Args[0].(*ast.BasicLit)
 			if !ok {
